@@ -4,6 +4,7 @@ import (
 	"context"
 
 	"github.com/bool64/cache"
+	zs "github.com/bool64/cache/zzverifsim"
 )
 
 // Value representations. The harness thinks in tokens (Tok, a comparable struct); the untyped APIs of
@@ -127,3 +128,11 @@ func shapeLogger(l fullLogger, mask int) cache.Logger {
 
 	return cache.NewLogger(e, w, i, d)
 }
+
+// quietLogger is a four-level logger that only yields (transfer engine: log content is not judged).
+type quietLogger struct{}
+
+func (quietLogger) Error(context.Context, string, ...interface{})     { zs.Yield("log.error") }
+func (quietLogger) Debug(context.Context, string, ...interface{})     { zs.Yield("log.debug") }
+func (quietLogger) Warn(context.Context, string, ...interface{})      { zs.Yield("log.warn") }
+func (quietLogger) Important(context.Context, string, ...interface{}) { zs.Yield("log.important") }
